@@ -543,11 +543,11 @@ impl<'r, 'a> Collector<'r, 'a> {
             }
             let plain = match e {
                 syn::Expr::Reference(r) => var_or_field(&r.expr),
-                syn::Expr::MethodCall(m) => m.args.is_empty() && var_or_field(&m.receiver),
+                syn::Expr::MethodCall(m) => m.args.iter().all(|a| matches!(a, syn::Expr::Path(_))) && var_or_field(&m.receiver),
                 other => var_or_field(other),
             };
             if !plain {
-                die("unsupported", &format!("{}: bind= side condition: the iterated expression of loop {key} is not a plain variable, a field of one, or a parameterless method call on one", self.rw.fn_path));
+                die("unsupported", &format!("{}: bind= side condition: the iterated expression of loop {key} is not a plain variable, a field of one, or a method call on one whose arguments are plain variables", self.rw.fn_path));
             }
             let r = rng(e);
             let et = match (&wrap, is_method(e, "iter")) {
@@ -691,7 +691,7 @@ impl<'ast, 'r, 'a> Visit<'ast> for Collector<'r, 'a> {
                 self.rw.log.push(format!("R30 let {name} = {m}.entry({k}).or_default() -> __entry_or_default; {name}.insert(..) -> __entry_insert"));
                 self.edits.push(Edit { range: rng(s), text: format!("__entry_or_default(&mut {m}, {k});"), prio: 0 });
             }
-            syn::Stmt::Local(l) if self.rw.on("R3") || self.rw.on("R16") || self.rw.on("R3f") || self.rw.on("R17") || self.rw.on("R26") || self.rw.on("R33") || self.rw.on("R3m") || self.rw.on("R44") || self.rw.on("R48") => {
+            syn::Stmt::Local(l) if self.rw.on("R3") || self.rw.on("R16") || self.rw.on("R3f") || self.rw.on("R17") || self.rw.on("R26") || self.rw.on("R33") || self.rw.on("R3m") || self.rw.on("R44") || self.rw.on("R48") || self.rw.on("R48v") => {
                 if self.rw.on("R16") {
                     if let Some(t) = self.try_r16(l) {
                         self.edits.push(Edit { range: rng(s), text: t, prio: 0 });
@@ -710,7 +710,7 @@ impl<'ast, 'r, 'a> Visit<'ast> for Collector<'r, 'a> {
                         return;
                     }
                 }
-                if self.rw.on("R48") {
+                if self.rw.on("R48") || self.rw.on("R48v") {
                     if let Some(t) = self.try_r48(l) {
                         self.edits.push(Edit { range: rng(s), text: t, prio: 0 });
                         return;
@@ -940,6 +940,45 @@ impl<'ast, 'r, 'a> Visit<'ast> for Collector<'r, 'a> {
                 let recv = self.render(&m.receiver);
                 self.rw.log.push("R46 stand-in iterator .collect() -> the vector itself".to_string());
                 self.edits.push(Edit { range: rng(e), text: recv, prio: 0 });
+            }
+            // R56: `V.to_owned().into_boxed_slice()` -> `__boxed_copy(&V)`;
+            //      `X.into_iter().map(|(input, _)| input).collect()` -> `__boxed_firsts(X)`   (payload of an error value)
+            syn::Expr::MethodCall(m)
+                if self.rw.on("R56") && m.method == "into_boxed_slice" && m.args.is_empty()
+                    && is_method(&m.receiver, "to_owned").map_or(false, |t| t.args.is_empty()) =>
+            {
+                let t = is_method(&m.receiver, "to_owned").unwrap();
+                let recv = self.render(&t.receiver);
+                self.rw.log.push("R56 V.to_owned().into_boxed_slice() -> __boxed_copy(&V)".to_string());
+                self.edits.push(Edit { range: rng(e), text: format!("__boxed_copy(&{recv})"), prio: 0 });
+            }
+            syn::Expr::MethodCall(m)
+                if self.rw.on("R56") && m.method == "collect" && m.args.is_empty()
+                    && is_method(&m.receiver, "map").map_or(false, |mp| mp.args.len() == 1 && norm(self.rw.text(&mp.args[0])).replace(' ', "") == "|(input,_)|input"
+                        && is_method(&mp.receiver, "into_iter").map_or(false, |ii| ii.args.is_empty())) =>
+            {
+                let mp = is_method(&m.receiver, "map").unwrap();
+                let ii = is_method(&mp.receiver, "into_iter").unwrap();
+                let recv = self.render(&ii.receiver);
+                self.rw.log.push("R56 X.into_iter().map(|(input, _)| input).collect() -> __boxed_firsts(X)".to_string());
+                self.edits.push(Edit { range: rng(e), text: format!("__boxed_firsts({recv})"), prio: 0 });
+            }
+            // R57: V.sort_by_key(|(literal, _)| *literal) -> __sort_by_literal(&mut V); R58: V.dedup_by_key(|(literal, description)| (*literal, *description)) -> __dedup_by_pair(&mut V)
+            syn::Expr::MethodCall(m) if self.rw.on("R57") && m.method == "sort_by_key" && m.args.len() == 1 => {
+                if norm(self.rw.text(&m.args[0])).replace(' ', "") != "|(literal,_)|*literal" {
+                    die("unsupported", &format!("{}: R57 side condition: the sort key is not `|(literal, _)| *literal`", self.rw.fn_path));
+                }
+                let recv = self.render(&m.receiver);
+                self.rw.log.push("R57 V.sort_by_key(|(literal, _)| *literal) -> __sort_by_literal(&mut V)".to_string());
+                self.edits.push(Edit { range: rng(e), text: format!("__sort_by_literal(&mut {recv})"), prio: 0 });
+            }
+            syn::Expr::MethodCall(m) if self.rw.on("R58") && m.method == "dedup_by_key" && m.args.len() == 1 => {
+                if norm(self.rw.text(&m.args[0])).replace(' ', "") != "|(literal,description)|(*literal,*description)" {
+                    die("unsupported", &format!("{}: R58 side condition: the dedup key is not `|(literal, description)| (*literal, *description)`", self.rw.fn_path));
+                }
+                let recv = self.render(&m.receiver);
+                self.rw.log.push("R58 V.dedup_by_key(|(literal, description)| (*literal, *description)) -> __dedup_by_pair(&mut V)".to_string());
+                self.edits.push(Edit { range: rng(e), text: format!("__dedup_by_pair(&mut {recv})"), prio: 0 });
             }
             // R52: M.keys().cloned().collect()  ->  __imap_key_set(&M)   (the key set of an inner map of the table; the
             // stand-in returns IndexSet<InpId>, so the rewritten text only compiles at that type)
@@ -1345,6 +1384,58 @@ impl<'ast, 'r, 'a> Visit<'ast> for Collector<'r, 'a> {
                         }
                     }
                 }
+                // R59: `for X in V.windows(2) { let [A, B] = X else { unreachable!() }; REST }`
+                //   -> `for __pr in __windows2(&V) { let (A, B) = __pr; REST }`  (windows(2) yields exactly the adjacent pairs)
+                if self.rw.on("R59") {
+                    if let Some(wn) = is_method(&f.expr, "windows") {
+                        let two = wn.args.len() == 1 && norm(self.rw.text(&wn.args[0])) == "2";
+                        let first = f.body.stmts.first();
+                        let pat_ok = match (first, &*f.pat) {
+                            (Some(syn::Stmt::Local(l)), syn::Pat::Ident(x)) => {
+                                let els_ok = l.init.as_ref().and_then(|i| i.diverge.as_ref()).map_or(false, |(_, els)| norm(self.rw.text(&**els)).replace(' ', "") == "{unreachable!()}");
+                                let src_ok = l.init.as_ref().map_or(false, |i| norm(self.rw.text(&*i.expr)) == x.ident.to_string());
+                                matches!(&l.pat, syn::Pat::Slice(sl) if sl.elems.len() == 2) && els_ok && src_ok
+                            }
+                            _ => false,
+                        };
+                        if !two || !pat_ok {
+                            die("unsupported", &format!("{}: R59 side condition: not `for X in V.windows(2) {{ let [A, B] = X else {{ unreachable!() }}; .. }}`", self.rw.fn_path));
+                        }
+                        let l = match first { Some(syn::Stmt::Local(l)) => l, _ => unreachable!() };
+                        let sl = match &l.pat { syn::Pat::Slice(sl) => sl, _ => unreachable!() };
+                        let a = self.rw.text(&sl.elems[0]).to_string();
+                        let b = self.rw.text(&sl.elems[1]).to_string();
+                        let v = self.render(&wn.receiver);
+                        self.edits.push(Edit { range: rng(&*f.pat), text: "__pr".to_string(), prio: 0 });
+                        self.edits.push(Edit { range: rng(first.unwrap()), text: format!("let ({a}, {b}) = __pr;"), prio: 0 });
+                        self.rw.log.push("R59 for X in V.windows(2) { let [A, B] = X else { unreachable!() }; .. } -> loop over __windows2(&V)".to_string());
+                        // the iterated expression is replaced below through the ordinary loop handling: V.windows(2) -> __windows2(&V)
+                        let er = rng(&*f.expr);
+                        let key = format!("{}", self.rw.native_loops);
+                        self.rw.native_loops += 1;
+                        let (iter, hdr, bs, be) = self.rw.loop_parts(&key);
+                        self.edits.push(Edit { range: er, text: format!("{iter}__windows2(&{v})"), prio: 0 });
+                        let open = f.body.brace_token.span.open().byte_range();
+                        let close = f.body.brace_token.span.close().byte_range();
+                        if !hdr.is_empty() { self.edits.push(Edit { range: open.start..open.start, text: hdr, prio: 0 }); }
+                        if !bs.is_empty() { self.edits.push(Edit { range: open.end..open.end, text: bs, prio: -9 }); }
+                        if !be.is_empty() { self.edits.push(Edit { range: close.start..close.start, text: be, prio: 9 }); }
+                        // R15 on the rest of the body: `if C { continue; }` -> nested if-not
+                        for st in f.body.stmts.iter().skip(1) {
+                            if let syn::Stmt::Expr(syn::Expr::If(ife), _) = st {
+                                let only_continue = ife.else_branch.is_none() && ife.then_branch.stmts.len() == 1 && matches!(&ife.then_branch.stmts[0], syn::Stmt::Expr(syn::Expr::Continue(c), _) if c.label.is_none());
+                                if only_continue {
+                                    let cond = self.render(&ife.cond);
+                                    self.edits.push(Edit { range: rng(st), text: format!("if !({cond}) {{"), prio: 0 });
+                                    self.edits.push(Edit { range: close.start..close.start, text: "}\n".to_string(), prio: 8 });
+                                    continue;
+                                }
+                            }
+                            self.visit_stmt(st);
+                        }
+                        return;
+                    }
+                }
                 // R50: `for X in [A, B, ..] { BODY }` (array literal, X a plain name, no break / continue in BODY)
                 //   -> `{ let X = A; BODY } { let X = B; BODY } ..`
                 if self.rw.on("R50") {
@@ -1554,6 +1645,7 @@ impl<'r, 'a> Collector<'r, 'a> {
         // walk the adapters back to `.iter()`
         let mut adapters: Vec<&syn::ExprMethodCall> = vec![];
         let mut cur: &syn::Expr = &coll.receiver;
+        let mut standin = false;
         let base = loop {
             match cur {
                 syn::Expr::MethodCall(m) if (m.method == "filter" || m.method == "map" || m.method == "filter_map") && m.args.len() == 1 => {
@@ -1561,6 +1653,8 @@ impl<'r, 'a> Collector<'r, 'a> {
                     cur = &m.receiver;
                 }
                 syn::Expr::MethodCall(m) if m.method == "iter" && m.args.is_empty() => break &*m.receiver,
+                // R48v: the chain starts at a stand-in that already returns the vector of what the real iterator yields
+                syn::Expr::MethodCall(m) if self.rw.on("R48v") && m.method == "iter_transitions_from" => { standin = true; break cur; }
                 _ => return None,
             }
         };
@@ -1597,6 +1691,12 @@ impl<'r, 'a> Collector<'r, 'a> {
                 close.push_str(" }");
                 cur_var = next;
             }
+        }
+        let mutk = match &l.pat { syn::Pat::Type(pt) => matches!(&*pt.pat, syn::Pat::Ident(pi) if pi.mutability.is_some()), syn::Pat::Ident(pi) => pi.mutability.is_some(), _ => false };
+        let _ = mutk;
+        if standin {
+            self.rw.log.push(format!("R48v let {name} = STANDIN(..)..{} adapters...collect() -> loop {key} over the stand-in's vector", adapters.len()));
+            return Some(format!("let mut {name}: {vec_ty} = Vec::new(); let __bs_{name} = {src}; let ghost __bs_{name}_g = __bs_{name}@; for __p0 in {iter}__bs_{name} {hdr}{{ {bs}{open}{name}.push({cur_var});{close} {be}}}"));
         }
         self.rw.log.push(format!("R48 let {name} = B.iter()..{} adapters...collect() -> loop {key} over __rb_vec", adapters.len()));
         Some(format!("let mut {name}: {vec_ty} = Vec::new(); let __bs_{name} = __rb_vec(&{src}); let ghost __bs_{name}_g = __bs_{name}@; for __p0 in {iter}__bs_{name} {hdr}{{ {bs}{open}{name}.push({cur_var});{close} {be}}}"))
